@@ -3,7 +3,7 @@
    semantics (Model/Guards.v, Proofs/GuardsProofs.v).  A removed or moved owner check, a new
    position message, a changed wasm comparison flips one of the [vm_compute] checks below. *)
 From Coq Require Import String List ZArith Bool.
-From Comdex Require Import Lib.Base Lib.Atomic Model.Guards Model.GuardsCheck Proofs.GuardsProofs
+From Comdex Require Import Lib.Base Lib.Atomic Model.Guards Model.GuardsCheck Proofs.GuardsProofs Proofs.GuardsCheckProofs
   Gen.GuardTable Gen.MsgTypes Gen.WasmTable.
 Import ListNotations.
 Open Scope string_scope.
@@ -42,6 +42,31 @@ Proof.
   - exact (scan_rejects_noop store wr helper_rows false is_owner_guard c (owner_fires c Ho Hk) scan_fuel _ s Hg).
 Qed.
 Print Assumptions c12_nonowner_rejected.
+
+(* WHICH record is compared.  The hypothesis "each owner comparison mismatches for a non-owner" of
+   c12_nonowner_rejected is about the record the comparison reads: it is justified only when that
+   record is the named position's own record (for a borrow, which has no owner field: the lend
+   position it sits on).  For every position message that names an id, the regenerated table
+   (Gen/GuardTable.v owner_cmps: compared field + chain of lookups with their keys, delegation and
+   helper rows followed) shows at least one owner comparison, and for EVERY owner comparison on the
+   handler's walk: the first lookup fetches a record of the kind whose owner field is compared;
+   each lookup is keyed by exactly one id of the kind it expects and by no id of another kind
+   (reviewed kinds: GuardsCheck.lookup_info / key_kind); a key that is a field of another record is
+   a field of the record the next lookup fetched; and the chain starts at one of the message's own
+   position-id fields.  A lend fetched by a borrow's own id (GetLend(ctx, borrowPos.ID)) fails it. *)
+Theorem c12_owner_record_keyed : forall m, In m position_msgs -> mem (mt_qname m) signer_keyed_msgs = false ->
+  (cmps_of (mt_handler m) = [] -> False) /\
+  forall c, In c (cmps_of (mt_handler m)) ->
+    owner_cmp_ok (msg_position_ids m) c = true /\
+    exists f lk keys, In f (msg_position_ids m) /\ In (lk, keys) (oc_chain c) /\ In ("msg." ++ f) keys.
+Proof.
+  assert (K : c12_owner_prov_check = true) by (vm_compute; reflexivity).
+  intros m Hm Hs. unfold c12_owner_prov_check in K. rewrite forallb_forall in K. specialize (K m Hm).
+  unfold owner_prov_ok in K. apply orb_prop in K. destruct K as [K|K].
+  - exfalso. apply (eq_true_false_abs _ K Hs).
+  - exact (owner_cmps_ok_spec _ _ K).
+Qed.
+Print Assumptions c12_owner_record_keyed.
 
 (* a rejected attempt changes no balance and no record: baseapp runs the handler on a branch of
    the store and commits only on success (Lib/Atomic.v) - for every handler row whatsoever *)
@@ -120,6 +145,19 @@ Example c12_position_msgs_nonempty :
      "lend.MsgWithdraw"; "lend.MsgCloseBorrow"; "lend.MsgRepayWithdraw"; "liquidity.MsgCancelOrder"; "liquidity.MsgUnfarm";
      "auctionsV2.MsgWithdrawLimitBidRequest"] = true.
 Proof. vm_compute. split; reflexivity. Qed.
+
+(* the provenance check is not vacuous: 19 id-naming position messages are covered by owner
+   comparisons, a lend looked up by the borrow's LendingID passes, by the borrow's own ID fails,
+   a chain that does not start at the message fails *)
+Example c12_owner_prov_nonvacuous :
+  length (filter (fun m => negb (mem (mt_qname m) signer_keyed_msgs)) position_msgs) = 19%nat /\
+  forallb (fun m => mem (mt_qname m) signer_keyed_msgs || negb (Nat.eqb (length (cmps_of (mt_handler m))) 0)) position_msgs = true /\
+  owner_cmp_ok ["BorrowId"] (mkOwnerCmp "lend.CloseBorrow" "LendAsset.Owner" [("GetLend", ["BorrowAsset.LendingID"]); ("GetBorrow", ["msg.BorrowId"])]) = true /\
+  owner_cmp_ok ["BorrowId"] (mkOwnerCmp "lend.CloseBorrow" "LendAsset.Owner" [("GetLend", ["BorrowAsset.ID"]); ("GetBorrow", ["msg.BorrowId"])]) = false /\
+  owner_cmp_ok ["BorrowId"] (mkOwnerCmp "lend.CloseBorrow" "LendAsset.Owner" [("GetLend", ["?x"])]) = false /\
+  owner_cmp_ok ["UserVaultId"] (mkOwnerCmp "vault.MsgClose" "Vault.Owner" [("GetVault", ["msg.LockerId"])]) = false /\
+  owner_cmp_ok ["UserVaultId"] (mkOwnerCmp "vault.MsgClose" "Vault.Owner" [("GetLocker", ["msg.LockerId"])]) = false.
+Proof. vm_compute. repeat split; reflexivity. Qed.
 
 (* the exemptions are load-bearing: none of the exempt messages has an owner guard *)
 Example c12_exempt_unguarded :
